@@ -166,7 +166,8 @@ def run_silent_everywhere(jobs=16, base_root=None):
     base_root = str(base_root or repo_root())
     man = json.load(open(pathlib.Path(HERE).parent / 'MANIFEST.json'))
     allp = [c['property_id'] for c in man['checks']]
-    cat = [dict(v, props=allp) for v in load_catalogue() if v['expect'] == 'silent']
+    # `not_silent_for`: properties under which the rewrite is NOT behaviour-preserving (e.g. a lazily created class-level table is a real race for C18)
+    cat = [dict(v, props=[p for p in allp if p not in v.get('not_silent_for', ())]) for v in load_catalogue() if v['expect'] == 'silent']
     with ProcessPoolExecutor(max_workers=min(jobs, len(cat))) as ex:
         return list(ex.map(run_variant, [(v, base_root) for v in cat]))
 
